@@ -116,6 +116,8 @@ func main() {
 		var lwg sync.WaitGroup
 		lwg.Add(1)
 		go func() { defer lwg.Done(); lapsingClientCert(r, dir, ca1) }()
+		lwg.Add(1)
+		go func() { defer lwg.Done(); clientFilesBroken(r, dir, ca1) }()
 		defer lwg.Wait()
 		// the RA's client certificate comes from a CA of its own, which is NOT among the configured server CAs; the
 		// certificate file holds the chain (leaf first, then that CA), as deployments with an intermediate do
@@ -662,4 +664,74 @@ func concurrentConstruction(r *ev.Run, dir string, caA, caB *caserver.CA, client
 		r.Count("client configurations built concurrently from two bundles, each trusting exactly its own", built)
 		r.Nontrivial("concurrent-construction")
 	})
+}
+
+// clientFilesBroken: after the signer was built, the client certificate and key files are in the state a half-done
+// rotation leaves them in for a moment (certificate file gone, key file holding another key, both truncated). The
+// signer goes on presenting the certificate it loaded: a genuine server that asks for a client certificate is still
+// reached, and sees the configured certificate.
+func clientFilesBroken(r *ev.Run, dir string, ca *caserver.CA) {
+	for vi, damage := range []string{"certificate-file-removed", "key-file-holds-another-key", "both-files-truncated", "certificate-file-holds-another-certificate"} {
+		c := r.Case("client-files-broken-after-construction", vi)
+		if c == nil {
+			continue
+		}
+		r.Eval(1)
+		r.Guard(c, "client files damaged after construction", damage, func() {
+			sub := filepath.Join(dir, fmt.Sprintf("broken%d", vi))
+			os.Mkdir(sub, 0o700)
+			cl := ca.Issue(caserver.Leaf{CN: "ra-client", Client: true})
+			certPath, keyPath := caserver.WritePEM(sub, "client", cl)
+			caPath := filepath.Join(sub, "ca.pem")
+			os.WriteFile(caPath, ca.PEM, 0o600)
+			ip := fmt.Sprintf("127.0.1.%d", 90+vi)
+			conf := &tls.Config{Certificates: []tls.Certificate{ca.Issue(caserver.Leaf{CN: "crypki", IPs: []string{ip}})}, MinVersion: tls.VersionTLS12, ClientAuth: tls.RequestClientCert}
+			servers, port, err := caserver.StartGroup([]string{ip}, []*tls.Config{conf})
+			if err != nil {
+				r.Count("client files broken: cannot start server (skipped)", 1)
+				return
+			}
+			defer servers[0].Stop()
+			now64 := uint64(time.Now().Unix())
+			text := string(ssh.MarshalAuthorizedKey(gen.MakeCert(gen.CertSpec{Key: gen.Pool()[0], KeyID: "broken", ValidAfter: now64 - 10, ValidBefore: now64 + 100})))
+			servers[0].Set(func(context.Context, *proto.SSHCertificateSigningRequest) (*proto.SSHKey, error) {
+				return &proto.SSHKey{Key: text}, nil
+			})
+			signer, err := crypki.NewSigner(crypki.SignerConfig{TLSClientKeyFile: keyPath, TLSClientCertFile: certPath, TLSCACertFiles: []string{caPath}, CrypkiEndpoints: []string{ip}, CrypkiPort: uint(port), Retries: 1, PerTryTimeout: 10 * time.Second})
+			if err != nil {
+				r.Violation(c, "signer-construction-fails", err.Error(), damage)
+				return
+			}
+			other := ca.Issue(caserver.Leaf{CN: "somebody-else", Client: true})
+			otherCert, otherKey := caserver.WritePEM(sub, "other", other)
+			switch damage {
+			case "certificate-file-removed":
+				os.Remove(certPath)
+			case "key-file-holds-another-key":
+				b, _ := os.ReadFile(otherKey)
+				os.WriteFile(keyPath, b, 0o600)
+			case "both-files-truncated":
+				os.WriteFile(certPath, nil, 0o600)
+				os.WriteFile(keyPath, nil, 0o600)
+			case "certificate-file-holds-another-certificate":
+				b, _ := os.ReadFile(otherCert)
+				os.WriteFile(certPath, b, 0o600)
+			}
+			ctx, cancel := context.WithTimeout(context.Background(), 60*time.Second)
+			defer cancel()
+			certs, _, serr := signer.Sign(ctx, &proto.SSHCertificateSigningRequest{KeyMeta: &proto.KeyMeta{Identifier: "x"}, Principals: []string{"a"}, PublicKey: "k", Validity: 60})
+			if serr != nil || len(certs) != 1 {
+				r.Violation(c, "sign-fails-although-a-genuine-endpoint-is-configured:client-files-"+damage, fmt.Sprintf("the client certificate files were damaged (%s) after the signer had been built; Sign returned certs=%d err=%v", damage, len(certs), serr), damage)
+				return
+			}
+			for _, h := range servers[0].Handshakes() {
+				if len(h.PeerCerts) == 0 || !bytes.Equal(h.PeerCerts[0], cl.Certificate[0]) {
+					r.Violation(c, "configured-client-certificate-not-presented:client-files-"+damage, fmt.Sprintf("%d peer certificates", len(h.PeerCerts)), damage)
+					return
+				}
+			}
+			r.Count("signers used after their client certificate files were damaged on disk: loaded certificate presented", 1)
+			r.Nontrivial("client-files-broken:" + damage)
+		})
+	}
 }
